@@ -880,9 +880,14 @@ class Xsd11AnyAttribute(XsdAnyAttribute):
         if '##defined' in self.not_qname and name in self.maps.attributes:
             xsd_attribute = self.maps.attributes[name]
             if isinstance(xsd_attribute, tuple):
-                if xsd_attribute[1] is self.schema:
-                    return False
-            elif xsd_attribute.schema is self.schema:
+                schema = xsd_attribute[1]
+            else:
+                schema = xsd_attribute.schema
+
+            # A schema can be composed of more documents of the same namespace
+            # (xs:include): a global attribute is defined whichever of them declares it.
+            if schema is self.schema or schema.maps is self.maps and \
+                    schema.target_namespace == self.schema.target_namespace:
                 return False
 
         return name not in self.not_qname and self.is_namespace_allowed(namespace)
